@@ -133,6 +133,16 @@ void rq_scenario(int nprod, int items, bool early) {
 }
 
 // ------------------------------------------------------------------ rd_*/wr_*: one async read / write
+// a one-shot latch on the scheduler's own mutex/condvar objects: a waiting thread is DISABLED (no
+// spinning), so it adds no branching to the exploration
+struct Latch {
+  pthread_mutex_t m = PTHREAD_MUTEX_INITIALIZER;
+  pthread_cond_t c = PTHREAD_COND_INITIALIZER;
+  bool set = false;
+  void signal() { pthread_mutex_lock(&m); set = true; pthread_cond_broadcast(&c); pthread_mutex_unlock(&m); }
+  void wait() { pthread_mutex_lock(&m); while (!set) pthread_cond_wait(&c, &m); pthread_mutex_unlock(&m); }
+};
+
 struct IoWorld;
 struct IoSlot;
 struct IoRcv {
@@ -160,12 +170,11 @@ struct IoSlot {
   bool constructed = false;
   unsigned char* buf = nullptr;     // the buffer handed to the operation
   size_t buf_len = 0;
-  unsigned char data[64];           // read: what arrived (copied out on completion)
   int completions = 0;
   Outcome outcome = O_NONE;
   long value = 0;
   int err = 0;
-  std::atomic<bool> completed{false};
+  Latch completed;
 
   ReadOp& rop() { return *reinterpret_cast<ReadOp*>(storage); }
   WriteOp& wop() { return *reinterpret_cast<WriteOp*>(storage); }
@@ -179,44 +188,60 @@ struct IoWorld {
   unifex::manual_lifetime<io_epoll_context::async_reader> reader;
   unifex::manual_lifetime<io_epoll_context::async_writer> writer;
   IoSlot slot[2];
-  long env_written = 0;                   // bytes the environment (T0) put into the pipe
-  long env_read = 0;                      // bytes the environment took out of the pipe
-  unsigned char next_out = 1;             // next byte value written into the pipe (by env or by a write op)
+  int expected;                           // completions after which the loop is told to stop
+  long op_bytes = 0;                      // bytes moved by completed operations
+  unsigned char next_out = 1;             // next byte value put into the pipe
   unsigned char next_in = 1;              // next byte value expected out of the pipe
+  bool write_mode;
 
-  IoWorld() {
+  explicit IoWorld(int expected_completions, bool write_mode_ = false) : expected(expected_completions), write_mode(write_mode_) {
     rtio::reset();
     int fd[2];
     if (::pipe2(fd, O_NONBLOCK | O_CLOEXEC) != 0) { rt::fail("harness: pipe2 failed"); return; }
     rfd = fd[0]; wfd = fd[1];
+    if (write_mode) {
+      // smallest pipe; fill it completely so that a write has to wait
+      ::fcntl(wfd, F_SETPIPE_SZ, 4096);
+    }
     reader.construct(c.ctx, rfd);
     writer.construct(c.ctx, wfd);
+    fds_open = true;
     for (int i = 0; i < 2; ++i) { slot[i].w = this; slot[i].idx = i; }
-    rtio::trace_fd(rfd);
+    rtio::trace_fd(write_mode ? wfd : rfd);
     c.spawn_loop(false);
   }
   // environment: put n bytes (a running byte sequence) into the pipe
-  void env_write(int n) {
+  void env_write(int n, bool observe = true) {
     unsigned char b[64];
     for (int i = 0; i < n; ++i) b[i] = next_out++;
     ssize_t r = ::write(wfd, b, n);
     if (r != n) rt::fail("harness: environment write returned %zd", r);
-    env_written += n;
-    rt::obs("wrote %d", n);
+    if (observe) rt::obs("wrote %d", n);
   }
-  // environment: take everything out of the pipe, checking the byte sequence
-  long env_drain() {
+  // environment (write mode): fill the pipe to the brim with filler bytes (value 0, skipped on the way out)
+  void env_fill() {
+    unsigned char z[512]; memset(z, 0, sizeof z);
+    for (;;) { ssize_t r = ::write(wfd, z, sizeof z); if (r <= 0) break; }
+  }
+  // environment: take everything out of the pipe (ONE read syscall empties it: the observable
+  // event is atomic with the effect), checking the byte sequence (filler bytes are 0)
+  long env_drain(bool observe = false) {
     long total = 0;
-    for (;;) {
-      unsigned char b[64];
-      ssize_t r = ::read(rfd, b, sizeof b);
-      if (r <= 0) break;
-      for (ssize_t i = 0; i < r; ++i) if (b[i] != next_in++) rt::fail("bytes left in the pipe are not the expected sequence");
-      total += r;
+    static unsigned char b[16384];
+    ssize_t r = ::read(rfd, b, sizeof b);
+    if (observe) rt::obs("drained");
+    while (r > 0) {
+      for (ssize_t i = 0; i < r; ++i) {
+        if (b[i] == 0) continue;
+        if (b[i] != next_in++) rt::fail("bytes in the pipe are not the expected sequence");
+        ++total;
+      }
+      r = ::read(rfd, b, sizeof b);
     }
-    env_read += total;
+    drained += total;
     return total;
   }
+  long drained = 0;                       // sequence bytes (non-filler) the environment took out of the pipe
   void start_read(int i, size_t len) {
     IoSlot& s = slot[i];
     s.is_write = false;
@@ -227,34 +252,45 @@ struct IoWorld {
     rt::obs("start%d", i);
     unifex::start(s.rop());
   }
+  void start_write(int i, size_t len) {
+    IoSlot& s = slot[i];
+    s.is_write = true;
+    s.buf_len = len; s.buf = new unsigned char[len];
+    for (size_t k = 0; k < len; ++k) s.buf[k] = (unsigned char)(next_out + k);
+    new (s.storage) WriteOp(unifex::connect(
+        unifex::async_write_some(writer.get(), unifex::span<const std::byte>(reinterpret_cast<const std::byte*>(s.buf), len)), IoRcv{&s}));
+    s.op_size = sizeof(WriteOp); s.constructed = true;
+    rt::obs("start%d", i);
+    unifex::start(s.wop());
+  }
   void cancel(int i) {
     rt::obs("cancel%d.begin", i);
     slot[i].src.request_stop();
     rt::obs("cancel%d.end", i);
   }
-  void await(int i) { wait_flag(slot[i].completed); }
+  void await(int i) { slot[i].completed.wait(); }
   // a no-op item through the context: when it has run, everything scheduled before it has run
   void fence();
+  // the loop is told to stop by the last expected completion (on its own thread); T0 only joins
   void finish() {
-    c.stop_loop(false);
     c.join_loop();
     for (auto& s : slot) s.check_untouched();
-    reader.destruct();
-    writer.destruct();
   }
+  bool fds_open = false;
+  ~IoWorld() { if (fds_open) { reader.destruct(); writer.destruct(); } }
 };
 
 struct FenceRcv {
-  std::atomic<bool>* f;
-  void set_value() && noexcept { rt::obs("fence"); f->store(true); }
+  Latch* f;
+  void set_value() && noexcept { rt::obs("fence"); f->signal(); }
   void set_done() && noexcept {}
   void set_error(std::exception_ptr) && noexcept {}
 };
 void IoWorld::fence() {
-  std::atomic<bool> f{false};
+  Latch f;
   auto op = unifex::connect(unifex::schedule(c.ctx.get_scheduler()), FenceRcv{&f});
   unifex::start(op);
-  wait_flag(f);
+  f.wait();
 }
 
 unifex::inplace_stop_token tag_invoke(unifex::tag_t<unifex::get_stop_token>, const IoRcv& r) noexcept { return r.s->src.get_token(); }
@@ -264,11 +300,15 @@ void IoSlot::complete(Outcome o, long v, int e) {
   if (rt::self() != LOOP_TID) rt::fail("op%d completed on T%d, not on the thread inside run()", idx, rt::self());
   if (++completions > 1) { rt::fail("op%d completed twice", idx); return; }
   outcome = o; value = v; err = e;
-  if (o == O_VALUE && !is_write) {
+  if (o == O_VALUE) {
     if (v < 0 || (size_t)v > buf_len) rt::fail("op%d reported %ld bytes for a buffer of %zu", idx, v, buf_len);
-    else {
-      for (long k = 0; k < v; ++k) if (buf[k] != w->next_in++) { rt::fail("op%d: bytes delivered are not the bytes written (position %ld)", idx, k); break; }
+    else if (!is_write) {
+      for (long k = 0; k < v; ++k) if (buf[k] != w->next_in++) { rt::fail("op%d: bytes delivered are not the bytes written", idx); break; }
       for (size_t k = (size_t)v; k < buf_len; ++k) if (buf[k] != 0xEE) { rt::fail("op%d: buffer modified beyond the reported byte count", idx); break; }
+      w->op_bytes += v;
+    } else {
+      w->next_out = (unsigned char)(w->next_out + v);   // these bytes are now in the pipe (checked when drained)
+      w->op_bytes += v;
     }
   }
   if (o != O_VALUE && !is_write)
@@ -287,14 +327,15 @@ void IoSlot::complete(Outcome o, long v, int e) {
     default: break;
   }
   rt::point("in-completion");
-  completed.store(true);
+  if (--w->expected == 0) w->c.stop.request_stop();   // on the loop thread: run() returns after this batch
+  completed.signal();
 }
 
 void IoSlot::check_untouched() {
   if (!constructed) return;
-  if (completions == 0) return;
+  if (completions == 0) { rt::fail("op%d never completed", idx); return; }
   for (size_t k = 0; k < op_size; ++k) if (storage[k] != POISON) { rt::fail("op%d: operation state was written after the operation completed", idx); break; }
-  for (size_t k = 0; k < buf_len; ++k) if (buf[k] != POISON) { rt::fail("op%d: buffer was written after the operation completed", idx); break; }
+  for (size_t k = 0; k < buf_len; ++k) if (buf[k] != POISON) { rt::fail("op%d: buffer was accessed after the operation completed", idx); break; }
   delete[] buf; buf = nullptr;
 }
 
@@ -314,7 +355,7 @@ SCENARIO(rq_stop_early) { rq_scenario(1, 1, true); }
 // ================================================================== async read
 // data is in the pipe before the read starts
 SCENARIO(rd_ready) {
-  IoWorld w;
+  IoWorld w(1);
   w.env_write(5);
   w.start_read(0, 8);
   w.await(0);
@@ -324,7 +365,7 @@ SCENARIO(rd_ready) {
 
 // the read parks; data arrives afterwards
 SCENARIO(rd_park) {
-  IoWorld w;
+  IoWorld w(1);
   w.start_read(0, 8);
   w.env_write(5);
   w.await(0);
@@ -332,9 +373,34 @@ SCENARIO(rd_park) {
   w.finish();
 }
 
-// cancel while parked, then reuse of the descriptor by a later read
+// fault schedule: spurious EAGAIN although data is there
+SCENARIO(rd_eagain_fault) {
+  IoWorld w(1);
+  rtio::fault(rtio::C_READV, w.rfd, 1, rtio::A_EAGAIN);
+  w.env_write(5);
+  w.start_read(0, 8);
+  w.await(0);
+  if (w.slot[0].outcome != O_VALUE || w.slot[0].value != 5) rt::fail("read did not complete with value 5 after a spurious EAGAIN");
+  w.finish();
+}
+
+// fault schedule: short count; a second read gets the rest, in order
+SCENARIO(rd_short) {
+  IoWorld w(2);
+  rtio::fault(rtio::C_READV, w.rfd, 1, rtio::A_SHORT, 2);
+  w.env_write(5);
+  w.start_read(0, 8);
+  w.await(0);
+  if (w.slot[0].outcome != O_VALUE || w.slot[0].value != 2) rt::fail("short read did not complete with the short count");
+  w.start_read(1, 8);
+  w.await(1);
+  if (w.slot[1].outcome != O_VALUE || w.slot[1].value != 3) rt::fail("second read did not get the remaining 3 bytes");
+  w.finish();
+}
+
+// cancel while parked (from T2), then reuse of the descriptor by a later read
 SCENARIO(rd_cancel_parked) {
-  IoWorld w;
+  IoWorld w(2);
   w.start_read(0, 8);
   w.fence();
   int t2 = rt::spawn([&] { w.cancel(0); });
@@ -350,7 +416,7 @@ SCENARIO(rd_cancel_parked) {
 
 // data and cancellation race
 SCENARIO(rd_cancel_race) {
-  IoWorld w;
+  IoWorld w(1);
   w.start_read(0, 8);
   int t2 = rt::spawn([&] { w.cancel(0); });
   w.env_write(5);
@@ -359,15 +425,14 @@ SCENARIO(rd_cancel_race) {
   IoSlot& s = w.slot[0];
   if (s.outcome == O_VALUE) { if (s.value != 5) rt::fail("read raced with cancel completed with a wrong byte count"); }
   else if (s.outcome != O_DONE) rt::fail("read raced with cancel completed with an error");
-  w.fence();
-  long left = w.env_drain();
-  if ((s.outcome == O_VALUE ? s.value : 0) + left != 5) rt::fail("bytes lost or duplicated: reported + left in the pipe != written");
   w.finish();
+  w.env_drain();
+  if (w.op_bytes + w.drained != 5) rt::fail("bytes lost or duplicated: reported + left in the pipe != written");
 }
 
-// stop requested before the operation is started
+// stop requested before the operation is started; the descriptor is used again afterwards
 SCENARIO(rd_cancel_before_start) {
-  IoWorld w;
+  IoWorld w(2);
   w.cancel(0);
   w.start_read(0, 8);
   w.await(0);
@@ -380,51 +445,25 @@ SCENARIO(rd_cancel_before_start) {
   w.finish();
 }
 
-// fault schedule: spurious EAGAIN although data is there
-SCENARIO(rd_eagain_fault) {
-  IoWorld w;
-  rtio::fault(rtio::C_READV, w.rfd, 1, rtio::A_EAGAIN);
-  w.env_write(5);
-  w.start_read(0, 8);
-  w.await(0);
-  if (w.slot[0].outcome != O_VALUE || w.slot[0].value != 5) rt::fail("read did not complete with value 5 after a spurious EAGAIN");
-  w.finish();
-}
-
-// fault schedule: short count
-SCENARIO(rd_short) {
-  IoWorld w;
-  rtio::fault(rtio::C_READV, w.rfd, 1, rtio::A_SHORT, 2);
-  w.env_write(5);
-  w.start_read(0, 8);
-  w.await(0);
-  if (w.slot[0].outcome != O_VALUE || w.slot[0].value != 2) rt::fail("short read did not complete with the short count");
-  w.start_read(1, 8);
-  w.await(1);
-  if (w.slot[1].outcome != O_VALUE || w.slot[1].value != 3) rt::fail("second read did not get the remaining 3 bytes");
-  w.finish();
-}
-
 // fault schedule: the first readv fails with a real error (EIO)
 SCENARIO(rd_error_start) {
-  IoWorld w;
+  IoWorld w(1);
   rtio::fault(rtio::C_READV, w.rfd, 1, rtio::A_ERR, EIO);
   w.start_read(0, 8);
   w.fence();
   IoSlot& s = w.slot[0];
   if (!(s.completions == 1 && s.outcome == O_ERROR && s.err == EIO))
     rt::fail("readv failed with EIO but the read did not complete with that error (%s)", s.completions == 0 ? "not completed: parked" : "other result");
-  if (s.completions == 0) {
-    int t2 = rt::spawn([&] { w.cancel(0); });
-    w.await(0);
-    rt::join(t2);
-  }
+  int t2 = -1;
+  if (s.completions == 0) t2 = rt::spawn([&] { w.cancel(0); });
+  w.await(0);
+  if (t2 >= 0) rt::join(t2);
   w.finish();
 }
 
 // fault schedule: the retry after readiness fails with a real error (EIO)
 SCENARIO(rd_error_retry) {
-  IoWorld w;
+  IoWorld w(1);
   rtio::fault(rtio::C_READV, w.rfd, 2, rtio::A_ERR, EIO);
   w.start_read(0, 8);
   w.fence();
@@ -433,8 +472,48 @@ SCENARIO(rd_error_retry) {
   IoSlot& s = w.slot[0];
   if (!(s.outcome == O_ERROR && s.err == EIO))
     rt::fail("readv failed with EIO but the read completed with %s %d", s.outcome == O_ERROR ? "error" : s.outcome == O_VALUE ? "value" : "done", s.outcome == O_ERROR ? s.err : (int)s.value);
-  w.env_drain();
   w.finish();
+}
+
+// ================================================================== async write
+// the pipe has room: the write completes at once; the bytes arrive intact
+SCENARIO(wr_ready) {
+  IoWorld w(1, true);
+  w.start_write(0, 8);
+  w.await(0);
+  if (w.slot[0].outcome != O_VALUE || w.slot[0].value != 8) rt::fail("write of 8 bytes into an empty pipe did not complete with value 8");
+  w.finish();
+  w.env_drain();
+  if (w.drained != 8) rt::fail("the pipe does not contain the 8 bytes the write reported");
+}
+
+// the pipe is full: the write parks until the environment drains the pipe
+SCENARIO(wr_park) {
+  IoWorld w(1, true);
+  w.env_fill();
+  w.start_write(0, 8);
+  w.fence();
+  w.env_drain(true);
+  w.await(0);
+  if (w.slot[0].outcome != O_VALUE || w.slot[0].value != 8) rt::fail("parked write did not complete with value 8");
+  w.finish();
+  w.env_drain();
+  if (w.drained != 8) rt::fail("the pipe does not contain the 8 bytes the write reported");
+}
+
+// the pipe is full: the write parks and is cancelled; nothing of its buffer reaches the pipe
+SCENARIO(wr_cancel_parked) {
+  IoWorld w(1, true);
+  w.env_fill();
+  w.start_write(0, 8);
+  w.fence();
+  int t2 = rt::spawn([&] { w.cancel(0); });
+  w.await(0);
+  rt::join(t2);
+  if (w.slot[0].outcome != O_DONE) rt::fail("cancelled parked write did not complete with done");
+  w.finish();
+  w.env_drain();
+  if (w.drained != 0) rt::fail("bytes of a cancelled write reached the pipe");
 }
 
 RT_MAIN()
